@@ -281,7 +281,8 @@ def fmt_label(fmt, off, e21=False):
     sepcfg, df, has_time, tf, comma, k, sepbyte, extra = fmt
     lab = DFORMS[df]
     if has_time:
-        lab += "|" + TFORMS[tf] + ("%d" % k if tf >= 5 else "") + "|" + OFORMS[min(off[0], 4)]
+        kb = "" if tf < 5 else ("0" if k == 0 else "1-5" if k < 6 else "6" if k == 6 else "7+")
+        lab += "|" + TFORMS[tf] + kb + "|" + OFORMS[min(off[0], 4)]
         if e21:
             lab += "|24:00"
     return lab
@@ -305,6 +306,10 @@ def py_reference(df, y, m, d):
 
 
 def run_pool(fn, jobs, nproc):
+    try:
+        nproc = max(1, min(nproc, int(os.environ.get("VERIF_NPROC", nproc))))
+    except ValueError:
+        pass
     if nproc <= 1 or len(jobs) <= 1:
         return [fn(j) for j in jobs]
     ctx = multiprocessing.get_context("fork")
